@@ -164,6 +164,15 @@ def trees(draw, root="q", max_modules=14, max_depth=4, siblings=SIBLINGS, min_mo
 
 
 @st.composite
+def shuffled(draw, seq):
+    """A permutation of seq drawn through sort keys. (st.permutations of more than a handful of elements is practically never
+    completed when the choices come from a fuzzer's byte string - Hypothesis' fuzz_one_input - instead of its own generator.)"""
+    seq = list(seq)
+    keys = draw(st.lists(st.integers(0, 10**6), min_size=len(seq), max_size=len(seq)))
+    return [x for _, _, x in sorted(zip(keys, range(len(seq)), seq))]
+
+
+@st.composite
 def import_relation(draw, tree, focus=(), max_edges=16):
     """Subset of candidate edges; about half of the draws are biased to touch the focus modules."""
     cand = M.candidate_edges(tree)
